@@ -107,12 +107,12 @@ Global Hint Resolve take_until_adv : tp.
 
 (* take_until without an ignore token consumes at least one character when no stop token matches *)
 Lemma take_until_sadv toks c :
-  at_end c = false -> is_next toks c = false -> sadv c (snd (take_until toks None c)).
+  at_end c = false -> is_next toks c = false -> sadv c (snd (take_until toks [] c)).
 Proof.
   destruct c as [d r]. unfold at_end, is_next, take_until; simpl.
   destruct r as [|x r]; [discriminate|]. intros _ H. simpl. rewrite H.
-  pose proof (take_until_go_adv toks None r O (x :: d)) as [H1 H2].
-  destruct (take_until_go toks None O (x :: d) r) as [s c']. simpl in *. split.
+  pose proof (take_until_go_adv toks [] r O (x :: d)) as [H1 H2].
+  destruct (take_until_go toks [] O (x :: d) r) as [s c']. simpl in *. split.
   - rewrite H1. apply text_of_step.
   - unfold len in *; simpl in *. lia.
 Qed.
@@ -211,8 +211,8 @@ Proof.
       eapply adv_trans; [apply take_n_adv | apply skip_ws_adv]. }
     destruct p as [tr0 c1]. simpl in Hp.
     pose proof (take_n_adv 1 c1) as H1. destruct (take_n 1 c1) as [qc c2]. simpl in H1.
-    pose proof (take_until_adv [qc] (Some (cBSL :: qc)) c2) as H2.
-    destruct (take_until [qc] (Some (cBSL :: qc)) c2) as [v0 c3]. simpl in H2.
+    pose proof (take_until_adv [qc] [[cBSL; cBSL]; cBSL :: qc] c2) as H2.
+    destruct (take_until [qc] [[cBSL; cBSL]; cBSL :: qc] c2) as [v0 c3]. simpl in H2.
     destruct qc as [|q0 qr]; [discriminate|]. cbn beta iota.
     match goal with |- context [if ?b then _ else _] => destruct b eqn:Hn end.
     + intro H. inversion H; subst. clear H.
@@ -222,26 +222,26 @@ Proof.
       eapply adv_trans; [apply skip_ws_adv | apply take_n_adv].
     + intro H. inversion H; subst.
       eapply adv_trans; [exact Hp|]. eapply adv_trans; [exact H1|]. exact H2.
-  - pose proof (take_until_adv (WS ++ FILTER ++ terms) None c) as H1.
-    destruct (take_until (WS ++ FILTER ++ terms) None c) as [v0 c1]. intro H. inversion H; subst. exact H1.
+  - pose proof (take_until_adv (WS ++ FILTER ++ terms) [] c) as H1.
+    destruct (take_until (WS ++ FILTER ++ terms) [] c) as [v0 c1]. intro H. inversion H; subst. exact H1.
 Qed.
 
 Lemma scan_value_err terms c e : scan_value terms c = Err e -> e = TemplateSyntaxError.
 Proof.
   unfold scan_value. destruct (is_next [[39]; [34]; [95; 40]]%N c).
   - destruct (if is_next [[95; 40]%N] c then _ else _) as [tr0 c1].
-    destruct (take_n 1 c1) as [qc c2]. destruct (take_until [qc] (Some (cBSL :: qc)) c2) as [v0 c3].
+    destruct (take_n 1 c1) as [qc c2]. destruct (take_until [qc] [[cBSL; cBSL]; cBSL :: qc] c2) as [v0 c3].
     destruct qc; [intro H; inversion H; reflexivity|]. destruct (is_next _ c3); discriminate.
-  - destruct (take_until _ None c). discriminate.
+  - destruct (take_until _ [] c). discriminate.
 Qed.
 
 Lemma scan_value_fuel terms c : scan_value terms c <> OutOfFuel.
 Proof.
   unfold scan_value. destruct (is_next [[39]; [34]; [95; 40]]%N c).
   - destruct (if is_next [[95; 40]%N] c then _ else _) as [tr0 c1].
-    destruct (take_n 1 c1) as [qc c2]. destruct (take_until [qc] (Some (cBSL :: qc)) c2) as [v0 c3].
+    destruct (take_n 1 c1) as [qc c2]. destruct (take_until [qc] [[cBSL; cBSL]; cBSL :: qc] c2) as [v0 c3].
     destruct qc; [discriminate|]. destruct (is_next _ c3); discriminate.
-  - destruct (take_until _ None c). discriminate.
+  - destruct (take_until _ [] c). discriminate.
 Qed.
 
 (* a value that starts where no stop token matches consumes at least one character *)
@@ -256,8 +256,8 @@ Proof.
       pose proof (take_n_sadv 1 c He) as H0.
       set (c1 := skip_ws (snd (take_n 2 c))) in *.
       pose proof (take_n_adv 1 c1) as H1. destruct (take_n 1 c1) as [qc c2]. simpl in H1.
-      pose proof (take_until_adv [qc] (Some (cBSL :: qc)) c2) as H2.
-      destruct (take_until [qc] (Some (cBSL :: qc)) c2) as [v0 c3]. simpl in H2.
+      pose proof (take_until_adv [qc] [[cBSL; cBSL]; cBSL :: qc] c2) as H2.
+      destruct (take_until [qc] [[cBSL; cBSL]; cBSL :: qc] c2) as [v0 c3]. simpl in H2.
       destruct qc as [|q0 qr]; [discriminate|]. cbn beta iota.
       assert (H03 : sadv c c3).
       { eapply sadv_adv_trans; [exact H0|]. eapply adv_trans; [apply skip_ws_adv|].
@@ -268,8 +268,8 @@ Proof.
         eapply adv_trans; [apply skip_ws_adv | apply take_n_adv].
       * intro H. inversion H; subst. exact H03.
     + pose proof (take_n_sadv 0 c He) as H1. destruct (take_n 1 c) as [qc c2]. simpl in H1.
-      pose proof (take_until_adv [qc] (Some (cBSL :: qc)) c2) as H2.
-      destruct (take_until [qc] (Some (cBSL :: qc)) c2) as [v0 c3]. simpl in H2.
+      pose proof (take_until_adv [qc] [[cBSL; cBSL]; cBSL :: qc] c2) as H2.
+      destruct (take_until [qc] [[cBSL; cBSL]; cBSL :: qc] c2) as [v0 c3]. simpl in H2.
       destruct qc as [|q0 qr]; [discriminate|]. cbn beta iota.
       match goal with |- context [if ?b then _ else _] => destruct b eqn:Hn end.
       * intro H. inversion H; subst. rewrite is_next_single in Hn.
@@ -278,7 +278,7 @@ Proof.
   - assert (Hn : is_next (WS ++ FILTER ++ terms) c = false).
     { unfold is_next in *. rewrite !existsb_app, Hw, Hf, Ht. reflexivity. }
     pose proof (take_until_sadv _ c He Hn) as H1.
-    destruct (take_until (WS ++ FILTER ++ terms) None c) as [v0 c1]. intro H. inversion H; subst. exact H1.
+    destruct (take_until (WS ++ FILTER ++ terms) [] c) as [v0 c1]. intro H. inversion H; subst. exact H1.
 Qed.
 
 Lemma mk_part_err v q sp tr f e : mk_part v q sp tr f = Err e -> e = TemplateSyntaxError.
@@ -652,7 +652,7 @@ Lemma parse_key_spec c1 :
   end.
 Proof.
   unfold parse_key. destruct (is_next VALUE_START c1); [apply adv_refl|].
-  pose proof (take_until_adv KEY_STOP None c1) as H. destruct (take_until KEY_STOP None c1) as [k c2].
+  pose proof (take_until_adv KEY_STOP [] c1) as H. destruct (take_until KEY_STOP [] c1) as [k c2].
   cbn [snd] in H.
   destruct (match k with [] => at_end c2 | _ => false end) eqn:E.
   - split; [exact H|]. destruct k; [exact E | discriminate].
